@@ -1,5 +1,5 @@
 (* C10/Model.v — the C10 model is the shared curator state machine of Meta/Curator.v (+ Meta/Master.v for the
    master half); this file only names the entry point used by the correspondence run. *)
 From Coq Require Import List ZArith.
-From BLB Require Import Meta.Curator Meta.CuratorWire.
-Definition run_case (ops : list (list Z)) : list (list Z) := CuratorWire.run_case ops.
+From BLB Require Import Meta.Curator Meta.CuratorWire Meta.Master Meta.MasterWire.
+Definition run_case (ops : list (list Z)) : list (list Z) := MasterWire.run_any_case ops.
